@@ -329,6 +329,9 @@ func (eng *Engine) VerifyFunc(f *ssa.Function) (rep *FuncReport) {
 			st.assume(g)
 		}
 	}
+	// rely/guarantee: this function is named as a writer by interference clauses elsewhere; the condition each
+	// of them assumes after the interference is an obligation here (guaranteeFor)
+	guars := ex.guaranteesFor(st, f, vars)
 	ex.pre = st.clone()
 	ex.inputs = vars
 	if fc != nil && len(fc.Requires) > 0 {
@@ -371,6 +374,19 @@ func (eng *Engine) VerifyFunc(f *ssa.Function) (rep *FuncReport) {
 			res = &Val{K: VTuple, Fs: o.results}
 		}
 		bindResults(fc, res, rvars)
+		for _, g := range guars {
+			env := &Env{ex: ex, cur: s, old: ex.pre, vars: g.vars, pkg: ex.pkgOfKey(g.rfc, g.relier)}
+			c := g.in.Assume
+			label := c.Label
+			if label == "" {
+				label = fmt.Sprintf("rely-of-%s#%d", funcShort(g.relier), g.idx)
+			}
+			// one obligation per conjunct, so that a failure names the part of the rely condition that is not guaranteed
+			for k, cj := range conjuncts(c.E) {
+				cc := &Clause{Kind: c.Kind, Tags: c.Tags, Label: label, E: cj, Src: c.Src, File: c.File, Line: c.Line}
+				ex.oblige(s, "guarantee", fmt.Sprintf("%s.%d", label, k+1), c.Tags, ex.evalWith(env, cc), cj.String(), fmt.Sprintf("%s:%d", filepath.Base(c.File), c.Line))
+			}
+		}
 		for _, c := range fc.Ensures {
 			// locals of the returning frame are visible (after parameters and results)
 			var rfr *Frame
@@ -401,6 +417,97 @@ func (eng *Engine) VerifyFunc(f *ssa.Function) (rep *FuncReport) {
 	}
 	_ = covers
 	return rep
+}
+
+// guarantee is one rely condition of another function (the relier) that names the function under
+// verification as a writer: the relier's parameters are arbitrary, except that the object the relier
+// shares with the writer is the writer's.
+type guarantee struct {
+	relier *ssa.Function
+	rfc    *FuncContract
+	in     *Interference
+	idx    int
+	vars   map[string]*Val
+}
+
+func (ex *Exec) guaranteesFor(st *State, f *ssa.Function, wvars map[string]*Val) []*guarantee {
+	var out []*guarantee
+	eng := ex.eng
+	wkey := funcKey(f)
+	var rkeys []string
+	for k := range eng.specs.Funcs {
+		rkeys = append(rkeys, k)
+	}
+	sort.Strings(rkeys)
+	for _, rk := range rkeys {
+		rfc := eng.specs.Funcs[rk]
+		for idx, in := range rfc.Interference {
+			hit := false
+			for _, w := range in.Writers {
+				if callMatches(w, wkey) {
+					hit = true
+				}
+			}
+			if !hit || len(eng.funcs[rk]) == 0 {
+				continue
+			}
+			rf := eng.funcs[rk][0]
+			g := &guarantee{relier: rf, rfc: rfc, in: in, idx: idx, vars: map[string]*Val{}}
+			for i, n := range rfc.Params {
+				if i >= len(rf.Params) {
+					break
+				}
+				v := symVal(fmt.Sprintf("rely%d_%s", len(out), n), rf.Params[i].Type())
+				ex.assumeWellTyped(st, v, rf.Params[i].Type())
+				g.vars[n] = v
+			}
+			// the shared object
+			var link *Val
+			if in.Linking != nil {
+				env := &Env{ex: ex, cur: st, old: st, vars: g.vars, pkg: ex.pkgOfKey(rfc, rf)}
+				link = env.rvalue(env.eval(in.Linking.E))
+			} else {
+				for i, n := range rfc.Params {
+					if i < len(rf.Params) {
+						if _, isPtr := rf.Params[i].Type().Underlying().(*types.Pointer); isPtr && ex.sharedWith(wvars, rf.Params[i].Type()) != nil {
+							link = g.vars[n]
+							break
+						}
+					}
+				}
+			}
+			if link == nil || link.K != VScalar {
+				ex.fail("interference clause %d of %s: no object shared with writer %s (add 'linking EXPR')", idx, short(rk), short(wkey))
+			}
+			w := ex.sharedWith(wvars, link.Ty)
+			if w == nil {
+				ex.fail("interference clause %d of %s: writer %s has no parameter of type %s to link", idx, short(rk), short(wkey), link.Ty)
+			}
+			st.assume(Eq(link.T, w.T))
+			out = append(out, g)
+		}
+	}
+	return out
+}
+
+// sharedWith finds the writer's parameter (or captured variable) of the given type; the receiver's name sorts first by convention.
+func (ex *Exec) sharedWith(wvars map[string]*Val, t types.Type) *Val {
+	var names []string
+	for n := range wvars {
+		names = append(names, n)
+	}
+	sort.Strings(names)
+	var found *Val
+	for _, n := range names {
+		v := wvars[n]
+		if v != nil && v.K == VScalar && v.Ty != nil && types.Identical(v.Ty, t) {
+			if found != nil && found.T != v.T {
+				return found // ambiguous: first by name
+			}
+			found = v
+		}
+	}
+	return found
 }
 
 func sitePos(in ssa.Instruction) token.Pos {
@@ -664,4 +771,11 @@ func coverVerdicts(obls []*Obligation) map[string]bool {
 		}
 	}
 	return res
+}
+
+func conjuncts(e *Expr) []*Expr {
+	if e.Op == "binop" && e.Name == "&&" {
+		return append(conjuncts(e.Args[0]), conjuncts(e.Args[1])...)
+	}
+	return []*Expr{e}
 }
